@@ -249,7 +249,7 @@ class DetPartition(Contract):
     def instances(self, tier):
         out = []
         for n in (2, 3):
-            for v in ("one-round", "two-rounds"):
+            for v in ("one-round", "two-rounds", "stored-crossing"):
                 for r in range(n):
                     out.append(dict(label=f"ranks={n};{v};rank={r}", nranks=n,
                                     variant=v, rank=r))
